@@ -13,7 +13,8 @@ META = {
     'required_obs': {'quick': ['rows-compared', 'frame-checked', 'row-multi-segment', 'c03-multi-chunk-remainder',
                                'c03-be-2d', 'c03-be-scalar', 'c03-le-2d', 'c03-special', 'c03-rand', 'c03-cast',
                                'c03-src-inline', 'c03-src-dict', 'c03-src-struct', 'c03-src-hdf5', 'c03-struct-fastpath',
-                               'c03-struct-permuted', 'c03-struct-aligned', 'c03-struct-view', 'c03-struct-packed']
+                               'c03-struct-permuted', 'c03-struct-aligned', 'c03-struct-view', 'c03-struct-packed', 'c03-cast-history',
+                               'c03-cast-declared-equal-to-derived']
                      + ['c03-dtype-' + d for d in gen.DTYPES]},
     'exhaustive_windows': {
         'quick': ['8 dtypes x byte order {<,>} x shape {(N,),(N,1),(N,3)} x layout {C,F,strided,view,readonly} x fill special (N=5, inline)'],
@@ -45,6 +46,9 @@ def cases(tier, seed):
         yield {'stratum': 'random-cast', 'index': k, 'kind': 'random-cast'}
     for k in range(120 if tier == 'quick' else 3000):
         yield {'stratum': 'struct-fastpath', 'index': k, 'kind': 'fastpath'}
+    # declared casts over a history: write, (re)declare the cast, write other data of another dtype
+    for k in range(80 if tier == 'quick' else 2000):
+        yield {'stratum': 'cast-history', 'index': k, 'kind': 'cast-history'}
 
 
 def run_case(case):
@@ -95,7 +99,49 @@ def run_case(case):
                                     c['data'].get('fill', {}).get('kind'), c.get('cast_dtype')) for c in chans][:6],
                       'write': w, 'max_record_length': sp['sul']['max_record_length']}
 
-    if case['kind'] == 'matrix':
+    if case['kind'] == 'cast-history':
+        import numpy as np
+        from vf import spec as S
+        r = gen.rng(seed, PROP, case['stratum'], case['index'])
+        n = r.choice([3, 5, 9])
+        sp = gen.base_spec(r.choice([128, 8192]))
+        sp['ops'].append(gen.origin_op())
+        dts = [r.choice(['float64', 'float32', 'int32', 'uint16']) for _ in range(2)]
+        sp['ops'].append(gen.channel_op('A', gen.dtstr(dts[0], '<'), (n,), fill={'kind': 'safe', 'tag': 1}))
+        sp['ops'].append(gen.channel_op('B', gen.dtstr(dts[1], '<'), (n, 3), fill={'kind': 'safe', 'tag': 2}))
+        sp['ops'].append(gen.frame_op('FR', [1, 2]))
+        sp['write'] = {'output_chunk_size': 2 ** 16}
+        first = harness.execute(sp)
+        if first.data is None:
+            bump('write-raised:' + first.wout[2][:40])
+            return {'evals': 1, 'violations': [], 'obs': obs, 'sigs': [], 'sample': None}
+        later = []
+        newdt = {}
+        for ci, cur in ((1, dts[0]), (2, dts[1])):
+            mode = r.choice(['same-as-derived', 'other', 'none'])
+            if mode == 'same-as-derived':
+                later.append({'op': 'setattr', 'target': ci, 'field': 'cast_dtype', 'value': {'$dtype': cur, 'as': r.choice(['type', 'dtype'])}})
+                bump('c03-cast-declared-equal-to-derived')
+            elif mode == 'other':
+                later.append({'op': 'setattr', 'target': ci, 'field': 'cast_dtype', 'value': {'$dtype': r.choice([d for d in ('float64', 'float32', 'int32') if d != cur]), 'as': 'type'}})
+            newdt[ci] = r.choice([d for d in ('float64', 'float32', 'int32', 'uint16', 'uint8') if d != cur])
+        # the second write gets other data (another dtype, values representable everywhere) through write(data=...)
+        arrays = {1: S.make_array({'dtype': gen.dtstr(newdt[1], '<'), 'shape': [n], 'fill': {'kind': 'safe', 'tag': 7}}),
+                  2: S.make_array({'dtype': gen.dtstr(newdt[2], '<'), 'shape': [n, 3], 'fill': {'kind': 'safe', 'tag': 9}})}
+        run = harness.rewrite(first, later, data={'A': arrays[1], 'B': arrays[2]})
+        bump('c03-cast-history')
+        evals += 1
+        if run.data is None:
+            bump('write-raised:' + run.wout[2][:40])
+        else:
+            run.arrays = arrays
+            oracle.check_frames(run)
+            for k_, v in run.obs.items():
+                bump(k_, v)
+            sigs.append('cast-history:' + ','.join(sorted(o['value']['$dtype'] for o in later)) + ':' + ','.join(newdt.values()))
+            vio.extend(dict(v.as_dict(), mech='cast-history:' + v.mech) for v in run.by_prop(PROP) + run.by_prop('C08'))
+        sample = {'kind': 'cast-history', 'first_dtypes': dts, 'later': later, 'second_dtypes': newdt}
+    elif case['kind'] == 'matrix':
         for N in case['Ns']:
             for fill in case['fills']:
                 for layout in gen.LAYOUTS:
